@@ -18,12 +18,16 @@ META = {
         "directions take the same path; C07.5 the constructor arguments of a descriptor are applied as json_class(*params) "
         "for lists and json_class(**params) for dicts, and dump emits [str(obj)] for Decimal and [obj.value] for Enum; C07.6 the "
         "per-request Config copy carries the serialisation settings and class table (shared with C13.2); C07.7 dispatcher, server, "
-        "proxy and transport keep the caller's Config object itself, so a class registered in its local table later is seen."),
+        "proxy and transport keep the caller's Config object itself, so a class registered in its local table later is seen, and "
+        "every constructor receiving a config hands that object to the package constructors it calls (pooled server, CGI handler, transports); "
+        "C07.8 the class instantiated by load is the entry of the caller's class table or the attribute read from the module imported in that "
+        "very call (no remembered class objects: the class currently bound to the name is the one instantiated)."),
     "does_not_decide": "equality of the reloaded fields for generated class shapes, importability of the emitted class "
                        "name, enum/Decimal value fidelity (value-level round trip over a space of programs).",
     "rules": {"C07.1": "provenance of the classes argument at recursive call sites", "C07.2": "call-graph / loop structure",
               "C07.3": "shape interpreter on _slots_finder", "C07.4": "provenance of config arguments", "C07.5": "dominating isinstance branch of each constructor call",
-              "C07.6": "sibling agreement Config.__init__/copy", "C07.7": "provenance of the stored config"},
+              "C07.6": "sibling agreement Config.__init__/copy", "C07.7": "provenance of the stored config",
+              "C07.8": "provenance of the instantiated class object"},
     "assumptions": ["Python's class-private mangling is '_' + class name stripped of leading underscores + name"],
 }
 
@@ -157,6 +161,27 @@ def check(ck):
                    "jsonrpc.load translates %s" % (prov.show(t0) if t0 else "nothing"), q.loc(fjl, n))
 
     # ---- C07.5 constructor arguments ---------------------------------------------------------------------
+    # the class that is instantiated: looked up in the caller's class table, or read from the module imported in this very call
+    n8 = 0
+    for n in gl.live_nodes():
+        for c in node_calls(n):
+            if isinstance(c.func, ast.Name) and c.func.id != "load" and (any(isinstance(a, ast.Starred) for a in c.args) or any(k.arg is None for k in c.keywords)):
+                n8 += 1
+                t = prov.origin(gl, n, c.func)
+                bad = []
+                for a in prov.value_alts(t):
+                    table = a[0] == "item" and a[1] == ("param", "classes")
+                    imported = a[0] == "call" and a[1] == ("global", "getattr") and len(a[2]) >= 2 and \
+                        prov.contains(a[2][0], lambda x: x[0] == "call" and x[1] == ("global", "__import__"))
+                    if not (table or imported):
+                        bad.append(prov.show(a)[:70])
+                ck.require(not bad, "C07.8", "%s: class instantiated by `%s`" % (q.fn(fl), dump(c)[:50]),
+                           "classes[<name>] or getattr(__import__(<module>), <name>) of this call",
+                           "the class instantiated for a descriptor can be %s: not the entry of the caller's class table nor the attribute "
+                           "of the module imported for this call (a remembered or foreign class object is instantiated: a redefined or "
+                           "reloaded class, or another configuration's class, is not the one used)" % bad, q.loc(fl, n))
+    if n8 < 1:
+        raise AnalysisError("anchor vanished: constructor call in jsonclass.load")
     # load() evaluated abstractly (E7) on a descriptor {"__jsonclass__": [name, params]}: one constructor call, which receives
     # a list's elements positionally in order, or a dictionary's items by keyword; anything else is a TranslationError
     # raised before any constructor runs
@@ -227,6 +252,8 @@ def check(ck):
                        "construction (config.classes.add(...)) are not seen by this object" % (field, prov.show(t)), q.loc(fi, n))
     if n7 < 3:
         raise AnalysisError("anchor vanished: config stores of the long-lived objects (found %d)" % n7)
+    common.check_config_forwarding(ck, "C07.7")
+    ck.floor("C07.7", 9)
 
     # ---- C07.6 the per-request configuration copy keeps the serialisation settings ------------------------
     common.check_config_copy(ck, "C07.6", only=("serialize_method", "ignore_attribute", "serialize_handlers", "classes", "use_jsonclass"))
